@@ -75,6 +75,10 @@ pub static mut PANIC_NOW: bool = false;
 /// Buffer of the input vector (0 = no allocation) and how often it was released.
 pub static mut BUF_PTR: usize = 0;
 pub static mut BUF_FREES: usize = 0;
+/// Size in bytes / alignment the buffer was allocated with, and whether a release used another layout.
+pub static mut BUF_BYTES: usize = 0;
+pub static mut BUF_ALIGN: usize = 1;
+pub static mut BUF_BAD_LAYOUT: bool = false;
 /// resume_unwind model: set when the function re-raises, with the payload tag it carried.
 pub static mut RESUMED: bool = false;
 pub static mut RESUMED_TAG: u32 = 0;
@@ -107,6 +111,9 @@ pub unsafe fn reset() {
     PANIC_NOW = false;
     BUF_PTR = 0;
     BUF_FREES = 0;
+    BUF_BYTES = 0;
+    BUF_ALIGN = 1;
+    BUF_BAD_LAYOUT = false;
     RESUMED = false;
     RESUMED_TAG = 0;
     RESUMED_IS_PAYLOAD = false;
@@ -215,9 +222,12 @@ pub mod models {
     use std::panic::UnwindSafe;
 
     /// Deallocation ghost: counts releases of the input vector's buffer, frees nothing.
-    pub unsafe fn dealloc_ghost(ptr: NonNull<u8>, _layout: Layout) {
+    pub unsafe fn dealloc_ghost(ptr: NonNull<u8>, layout: Layout) {
         if BUF_PTR != 0 && ptr.as_ptr() as usize == BUF_PTR {
             BUF_FREES += 1;
+            if layout.size() != BUF_BYTES || layout.align() != BUF_ALIGN {
+                BUF_BAD_LAYOUT = true;
+            }
         }
     }
 
